@@ -422,6 +422,26 @@ Proof.
     + constructor; [|constructor]. left. split; [reflexivity|assumption].
 Qed.
 
+(** with hide_cursor = False no write contains HIDE_CURSOR *)
+Lemma new_writes_nohide anim h pb pl frames k : forallb text_frame frames = true ->
+  forallb (fun x => negb (is_hide x)) (snd (nth k (new_writes false anim h pb pl frames) (false, []))) = true.
+Proof.
+  intros Hf. unfold new_writes. simpl app.
+  assert (Hall : forall ws : list (bool * list tok), Forall (fun w => forallb (fun x => negb (is_hide x)) (snd w) = true) ws ->
+            forall k, forallb (fun x => negb (is_hide x)) (snd (nth k ws (false, []))) = true).
+  { induction ws as [|w0 ws IH]; intros HF [|k0]; simpl; auto; inversion HF; subst; auto. }
+  apply Hall.
+  assert (Hc : forall a b, forallb (fun x => negb (is_hide x)) ([TCR] ++ cuu a ++ cuf b) = true).
+  { intros a b. unfold cuu, cuf. destruct (0 <? a), (0 <? b); reflexivity. }
+  destruct frames as [|F0 Fs]; [constructor|].
+  simpl in Hf. apply andb_true_iff in Hf. destruct Hf as [H0 Hfs].
+  destruct anim.
+  - constructor; [apply text_frame_nohide; assumption|]. constructor; [apply Hc|].
+    clear H0. induction Fs as [|F Fs IH]; [constructor|]. simpl in Hfs. apply andb_true_iff in Hfs. destruct Hfs as [HF Hfs].
+    simpl. constructor; [apply text_frame_nohide; assumption|]. constructor; [apply Hc|]. apply IH. assumption.
+  - constructor; [apply text_frame_nohide; assumption|constructor].
+Qed.
+
 (** the clean-up after the handler position: cursor down (maybe), "\n", SHOW_CURSOR (maybe) *)
 Definition new_tail (hide anim : bool) (h pb : Z) (k : nat) : list tok :=
   (if anim && ffw hide k then cud (h + pb - 1) else []) ++ new_final hide.
@@ -495,19 +515,7 @@ Proof.
       assert (V2 : hide = false -> visible t2 = true).
       { intros Hh. apply exec_visible; [|auto]. unfold cutw. rewrite forallb_app. apply andb_true_iff. split.
         - (* with hide = false no write contains HIDE_CURSOR *)
-          apply forallb_firstn. subst w. unfold new_writes. rewrite Hh. simpl app.
-          destruct frames as [|F0 Fs]; [destruct k; reflexivity|].
-          simpl in Hf. apply andb_true_iff in Hf. destruct Hf as [H0 Hfs].
-          assert (Hall : forall ws : list (bool * list tok), Forall (fun w => forallb (fun x => negb (is_hide x)) (snd w) = true) ws ->
-                    forall k, forallb (fun x => negb (is_hide x)) (snd (nth k ws (false, []))) = true).
-          { induction ws as [|w0 ws IH]; intros HF [|k0]; simpl; auto; inversion HF; subst; auto. }
-          apply Hall. assert (Hc : forall a b, forallb (fun x => negb (is_hide x)) ([TCR] ++ cuu a ++ cuf b) = true).
-          { intros a b. unfold cuu, cuf. destruct (0 <? a), (0 <? b); reflexivity. }
-          destruct anim.
-          + constructor; [apply text_frame_nohide; assumption|]. constructor; [apply Hc|].
-            clear H0. induction Fs as [|F Fs IH]; [constructor|]. simpl in Hfs. apply andb_true_iff in Hfs. destruct Hfs as [HF Hfs].
-            simpl. constructor; [apply text_frame_nohide; assumption|]. constructor; [apply Hc|]. apply IH. assumption.
-          + constructor; [apply text_frame_nohide; assumption|constructor].
+          apply forallb_firstn. subst w. rewrite Hh. apply new_writes_nohide. assumption.
         - destruct c as [k0|]; [|reflexivity]. destruct (nth_error (snd w) j); [|reflexivity]. destruct (cut_ok t0 k0); reflexivity. }
       pose proof (new_tail_props hide anim h pb k _ N2 P2 S2 V2) as [A [B [C [D E]]]].
       repeat split; auto.
@@ -530,13 +538,15 @@ Lemma hint_handler_recovers : forall t, parser t <> InStr -> pending t = None ->
   parser (exec lm t [TSgr0]) = Ground /\ pending (exec lm t [TSgr0]) = None /\
   sgr (exec lm t [TSgr0]) = adefault /\ visible (exec lm t [TSgr0]) = visible t.
 Proof.
-  intros t Hn Hp. unfold exec. simpl. unfold step. destruct (parser t) eqn:E; simpl; try congruence; auto.
+  intros t Hn Hp. destruct t as [r c0 at0 v sy p pe lg]. simpl in *. subst pe.
+  destruct p; cbn; try congruence; auto.
 Qed.
 Lemma text_handler_recovers : forall t, parser t <> InStr -> pending t = None ->
   parser (exec lm t [TSt; TSgr0]) = Ground /\ pending (exec lm t [TSt; TSgr0]) = None /\
   sgr (exec lm t [TSt; TSgr0]) = adefault /\ visible (exec lm t [TSt; TSgr0]) = visible t.
 Proof.
-  intros t Hn Hp. unfold exec. simpl. unfold step. destruct (parser t) eqn:E; simpl; try congruence; auto.
+  intros t Hn Hp. destruct t as [r c0 at0 v sy p pe lg]. simpl in *. subst pe.
+  destruct p; cbn; try congruence; auto.
 Qed.
 
 End P.
